@@ -1,8 +1,9 @@
 #!/usr/bin/env python3
 """seedstore.py <ID> <name> <check_result> <caught_by> — copies /tmp/seed-<ID>/out into /verif/seeded/<name>/ with my confirmation"""
 import json, os, shutil, sys
-pid, name, check_result, caught_by = sys.argv[1:5]
-src = f"/tmp/seed-{pid}/out"; dst = f"/verif/seeded/{name}"
+tag, name, check_result, caught_by = sys.argv[1:5]
+pid = tag[:3]
+src = f"/tmp/seed-{tag}/out"; dst = f"/verif/seeded/{name}"
 os.makedirs(dst, exist_ok=True)
 for f in ("patch.diff", "demo.diff"):
     shutil.copy(os.path.join(src, f), os.path.join(dst, f))
